@@ -1,12 +1,13 @@
 #!/bin/sh
-# usage: patchtest.sh <patch-file> <prop>... : applies a patch to a scratch copy of /repo (never /repo itself),
+# usage: patchtest.sh <patch-file> <prop>... : applies a patch to a scratch copy of /repo at HEAD (never /repo itself),
 # runs the quick checks of the given properties against the copy, prints their VIOLATION / summary lines and
 # removes the copy. Evidence of these runs goes to the scratch directory, not to /verif/evidence.
 patch=$1; shift
 scratch=$(mktemp -d /tmp/verif-patchtest-XXXXXX)
 trap 'rm -rf "$scratch"' EXIT
 mkdir -p $scratch/verif/replay
-rsync -a --exclude .git /repo/ $scratch/repo/
+# the committed tree (HEAD), so that uncommitted work in /repo neither leaks into the run nor is disturbed by it
+mkdir -p $scratch/repo && git -C /repo archive HEAD | tar -x -C $scratch/repo
 patch -p1 -s -d $scratch/repo -i "$patch" || { echo "patchtest: patch does not apply"; exit 2; }
 cp /verif/known_findings.json $scratch/verif/
 cp /verif/replay/prelude_raft_test.go $scratch/verif/replay/ 2>/dev/null
